@@ -96,15 +96,13 @@ structure HeaderFlags where
   deriving Repr, Inhabited, DecidableEq
 
 /-- `compare_database_headers` restricted to "does any attribute outside the handled list differ":
-page size, read/write version, reserved bytes, payload fractions, default cache size,
-incremental-vacuum mode, application id, sqlite version number (magic string and the
-reserved-for-expansion bytes are constant for accepted headers) -/
+page size, read/write version, reserved bytes, payload fractions (magic string and the
+reserved-for-expansion bytes are constant for accepted headers; default cache size,
+incremental-vacuum mode, application id and sqlite version number are accepted) -/
 def unhandledDiffers (a b : DbHeader) : Bool :=
   a.pageSize ≠ b.pageSize ∨ a.writeVersion ≠ b.writeVersion ∨ a.readVersion ≠ b.readVersion ∨
   a.reservedBytes ≠ b.reservedBytes ∨ a.maxFraction ≠ b.maxFraction ∨ a.minFraction ≠ b.minFraction ∨
-  a.leafFraction ≠ b.leafFraction ∨ a.defaultCacheSize ≠ b.defaultCacheSize ∨
-  a.incrementalVacuum ≠ b.incrementalVacuum ∨ a.applicationId ≠ b.applicationId ∨
-  a.sqliteVersion ≠ b.sqliteVersion
+  a.leafFraction ≠ b.leafFraction
 
 /-- `_parse_database_header_differences`: every `raise WalCommitRecordParsingError` in order -/
 def classifyDifferences (prev next : DbHeader) (committedSize : Nat) (schemaModified : Bool) : Py HeaderFlags := do
@@ -183,14 +181,24 @@ def versionOfDatabase (db : Database) : Version :=
     freelist := db.freelist, freelistNumbers := db.freelistPageNumbers, ptrmap := db.ptrmap,
     updatedBTree := db.updatedBTreePages, committed := true, flags := {} }
 
+/-- `version.root_page` / `version.master_schema` as *observed*: a commit record that did not
+modify the schema holds no schema object of its own and re-parses page 1 under itself -/
+def observedSchema (ver : Version) (v : VersionIf) (frames : Nat) : Py (List BPage × MasterSchema) :=
+  if ver.schemaModified then .ok (ver.rootTree, ver.schema)
+  else do
+    let rt ← getBTreeRoot v frames 1
+    let ms ← parseMasterSchema v ver.encoding rt
+    pure (rt, ms)
+
 /-- `Version.pages` for any version (no cache) -/
 def versionCensus (ver : Version) (v : VersionIf) (frames : Nat) : Py (List (Nat × String)) := do
   let put := fun (d : List (Nat × String)) (k : Nat) (s : String) => dictInsert d k s
   let d := ver.freelist.foldl (fun d t =>
       t.leaves.foldl (fun d l => put d l "FREELIST_LEAF") (put d t.number "FREELIST_TRUNK")) []
   let d := ver.ptrmap.foldl (fun d p => put d p.number "POINTER_MAP") d
-  let d := ver.schema.pages.foldl (fun d pn => put d pn.1 pn.2) d
-  let d ← ver.schema.rootNumbers.foldlM (fun d r => do
+  let (_, schema) ← observedSchema ver v frames
+  let d := schema.pages.foldl (fun d pn => put d pn.1 pn.2) d
+  let d ← schema.rootNumbers.foldlM (fun d r => do
       let t ← getBTreeRoot v frames r
       pure ((treePageNumbers t).foldl (fun d pn => put d pn.1 pn.2) d)) d
   if ¬ ver.sizeExact ∨ d.length ≠ ver.dbSize then .error .parseError
@@ -251,9 +259,9 @@ def makeCommitRecord (cfg : Config) (dbv : VersionIf) (wal : Wal) (number : Nat)
         let (fd, committed, csize) ← frames.foldlM
           (fun (st : List (Nat × Frame) × Bool × Nat) f => do
             let (d, com, cs) := st
-            if d.any (·.1 = f.hdr.pageNumber) then (.error .parseError : Py (List (Nat × Frame) × Bool × Nat))
-            else if f.isCommit ∧ com then .error .parseError
-            else pure (d ++ [(f.hdr.pageNumber, f)], com ∨ f.isCommit, if f.isCommit then f.hdr.sizeAfterCommit else cs))
+            -- a page written twice in one transaction (cache spill): the later frame wins (dict assignment)
+            if f.isCommit ∧ com then (.error .parseError : Py (List (Nat × Frame) × Bool × Nat))
+            else pure (dictInsert d f.hdr.pageNumber f, com ∨ f.isCommit, if f.isCommit then f.hdr.sizeAfterCommit else cs))
           ([], false, 0)
         let updated := fd.map (·.1)
         let pvi := updated.foldl (fun d p => dictSet d p number) prev.pvi
